@@ -886,3 +886,67 @@ func curErrKind(c *Ctx, v ssa.Value, at ssa.Instruction) core.NilKind {
 	}
 	return k
 }
+
+// R-CUR-6 (added after seeded change C16-1, DESIGN §8): the "no row" exits of
+// Cursor.Fetch park the pointer on a boundary.
+func init() {
+	Register(&Rule{ID: "R-CUR-6", Props: []string{"C16"}, Floor: 2,
+		Doc: "every exit of Cursor.Fetch that returns no row and no error stores a boundary value into Cursor.index first — −1 on the before-first side, the record count on the after-last side — so that a later relative move starts from the clamped position, not from a raw overshoot",
+		Run: ruleCur6})
+}
+
+func ruleCur6(c *Ctx) {
+	fn := c.Fn("lib/query.(*Cursor).Fetch")
+	if fn == nil {
+		return
+	}
+	n := 0
+	for _, r := range core.Returns(fn) {
+		if len(r.Results) != 2 {
+			continue
+		}
+		vals0 := core.ReturnOperand(r, 0)
+		vals1 := core.ReturnOperand(r, 1)
+		allNil := func(vs []ssa.Value) bool {
+			for _, v := range vs {
+				if v != nil && !core.IsNilConst(v) {
+					return false
+				}
+			}
+			return len(vs) > 0
+		}
+		if !allNil(vals0) || !allNil(vals1) {
+			continue
+		}
+		n++
+		key := c.KeyAt(fn, fmt.Sprintf("no-row exit #%d", n))
+		// the last store to Cursor.index on the way into this return (same block)
+		var last *ssa.Store
+		for _, in := range r.Block().Instrs {
+			if st, ok := in.(*ssa.Store); ok {
+				if fa, ok := st.Addr.(*ssa.FieldAddr); ok && core.FieldOwner(fa) == "lib/query.Cursor.index" {
+					last = st
+				}
+			}
+		}
+		if last == nil {
+			c.Bad(key, c.Pos(r), "this exit returns no row without parking Cursor.index on a boundary: after an overshoot the pointer keeps the raw value, so FETCH PRIOR / RELATIVE afterwards addresses the wrong row and IS IN RANGE disagrees with the position")
+			continue
+		}
+		ok := false
+		what := ""
+		if k, isConst := core.ConstInt(last.Val); isConst && k == -1 {
+			ok, what = true, "−1 (before the first row)"
+		}
+		if call, isCall := last.Val.(*ssa.Call); isCall {
+			name := c.P.CalleeName(call)
+			if name == "lib/query.(*View).RecordLen" || name == "lib/query.(*View).Len" || name == "builtin:len" {
+				ok, what = true, "the record count (after the last row)"
+			}
+		}
+		c.Check(ok, key, c.Pos(last), "parks the pointer on "+what, "the value stored into Cursor.index before the no-row exit is neither −1 nor the record count")
+	}
+	if n < 2 {
+		c.Unknown(c.KeyAt(fn, "no-row exits"), c.FnPos(fn), fmt.Sprintf("cannot-analyse: expected the before-first and after-last exits of Fetch, found %d", n))
+	}
+}
